@@ -221,9 +221,9 @@ func init() {
 		ID:   "C07",
 		Also: []string{"C02"}, // in these batches a fidelity failure (exactly-once dispatch, equal arguments / results) is this property's failure
 		Batches: []Batch{
-			s4b("rpc", "res=fam.annotated,methods=excl", 15000, 1000000),
-			s4b("rpc", "res=fam.annotated,methods=excl,byzclient=1", 15000, 1000000),
-			s4b("rpc", "res=fam.annotated+fam.prims,mounts=bare+mux+prefix,byzclient=1", 6000, 400000),
+			s4b("rpc", "res=fam.annotated+fam.annotatedre,methods=excl", 15000, 1000000),
+			s4b("rpc", "res=fam.annotated+fam.annotatedre,methods=excl,byzclient=1", 15000, 1000000),
+			s4b("rpc", "res=fam.annotated+fam.annotatedre+fam.prims,mounts=bare+mux+prefix,byzclient=1", 6000, 400000),
 		},
 		Rule:   "calls to the annotated resource (readOnly: id, inner/b, items/*/b; createOnly: created, attrs/*/a) through create, batch_create, update, batch_update, partial_update, batch_partial_update with entities and patches drawn by reflection; the wire tap is parsed with encoding/json and must carry no value at an excluded path; the resource must see the entity minus exactly the excluded paths; a patch touching an excluded leaf must fail on the client with nothing sent; in the Byzantine-client batches half of the requests are rewritten to carry a value at an excluded path ($set, $delete, nested patch, array and map wildcards) and must be answered 400 without the resource running. Distinct by (resource, method, mounting).",
 		Assume: append([]string{"only the family's six exclusion paths are exercised (they cross the leading-scope offsets 0, 1, 2 and 3 through the batch and patch variants); exactness for arbitrary specs up to depth 4 is a pure codec property and is not claimed"}, s4Assume...),
@@ -276,8 +276,8 @@ func init() {
 	reg(&PropSpec{
 		ID: "C20",
 		Batches: []Batch{
-			s6b("genfs", "", 1500, 150000),
-			s6b("genfs", "faults=1,order=1", 2500, 250000),
+			s6b("genfs", "", 1000, 150000),
+			s6b("genfs", "faults=1,order=1", 1600, 250000),
 		},
 		Rule:   "each run builds a directory tree (depth <= 3, <= 3 entries per level over {generated file, manifest, user .go file, other file incl. look-alike names, empty dir, nested dir}; target present, absent or '.'), then runs 1-4 operations from {clean, generate} as separate generator processes; second batch: one file-system call of one operation fails (EACCES / ENOSPC / EIO), is torn, or the process crashes before / in / after it, and the workload continues after the 'restart'; map order inside the generator is permuted. Distinct by (target mode, manifest, operations, tree).",
 		Assume: []string{"the generator never syncs, so a crash loses nothing that a completed call had written: crash = process exit at a call boundary (or inside a torn write)", "symlinks and concurrent writers to the output directory are not simulated", "sampled exploration; a clean batch is evidence, not proof"},
